@@ -15,7 +15,7 @@ pub fn sem_table() -> OpTable {
         t.prefix.insert(n.to_string());
     }
     for (n, _) in handlers::INFIX_OPS {
-        t.infix.insert(n.to_string(), (115, false));
+        t.infix.insert(n.to_string(), (115, n == "vh_in1"));
     }
     for (n, _) in handlers::POSTFIX_OPS {
         t.postfix.insert(n.to_string());
